@@ -261,3 +261,76 @@ def h_setup(I, fi):
     P.check("setup.first-entry", isinstance(tr, list) and len(tr) == 1 and tr[0]["iter"] == 0 and tr[0]["tree"] == ("dict-of", t, False),
             "the trace starts with the post-burn-in tree, recorded as iteration 0", kind="post")
     dsl.cover(I, "setup")
+
+
+BURNIN = "phyclone.run._run_burnin"
+
+
+def h_burnin(I, fi):
+    """_run_burnin: with burnin == 0 the tree is returned untouched; otherwise one arbitrary iteration (loop over range(burnin)) clears the proposal
+    caches, then applies the burn-in sampler, the data-point and the prune-regraft moves each to the result of the previous one and relabels the last
+    result, which is the current tree afterwards; the loop is left early only through the time limit; the current tree is returned."""
+    P = I.P
+    log = I.registry.log
+    del log.ev[:]
+    td = TD(log)
+    holder = Holder(log)
+    nd, npr = P.decide(3), P.decide(2)
+    burnin = alg.sym("burnin", "Int")
+    zero = P.decide(2) == 1
+    P.assume(P.z(burnin) == 0 if zero else P.z(burnin) >= 1)
+    pf = alg.sym("print_freq", "Int")
+    P.assume(P.z(pf) >= 1)
+    start = VTree(log, "initial")
+    state = {}
+
+    def loop(I_, node, fr):
+        from pyvc.builtins_model import SymSeq as _SS
+        from pyvc.interp import _Break
+        rs = I_.eval(node.iter, fr)
+        P.check("burnin.loop-range", dsl.conj(isinstance(rs, _SS), P.z(rs.length) == P.z(burnin)), "the burn-in loop runs `burnin` times", kind="post")
+        mode = P.decide(2)
+        if mode == 1:
+            # after the loop: an arbitrary current tree
+            state["after"] = VTree(log, "after-the-loop")
+            fr.vars["tree"] = state["after"]
+            return
+        i = alg.sym("i", "Int")
+        P.assume(z3.And(P.z(i) >= 0, P.z(i) < P.z(burnin)))
+        cur = VTree(log, "current")
+        fr.vars["tree"] = cur
+        del log.ev[:]
+        I_.assign_target(node.target, i, fr)
+        try:
+            I_.exec_block(node.body, fr)
+        except _Break:
+            state["broke"] = True
+        state["cur"], state["final"] = cur, fr.vars["tree"]
+        raise _IterationDone()
+
+    I.registry.loop_invariants[(fi.qualname, 0)] = loop
+    args = {"burnin": burnin, "max_time": alg.sym("max_time"), "num_samples_data_point": nd, "num_samples_prune_regraph": npr, "print_freq": pf, "samplers": holder,
+            "timer": TimerM(log), "tree": start, "tree_dist": td, "chain_num": 0}
+    names = [a.arg for a in fi.node.args.args]
+    try:
+        out = I.call_function(fi, [args[n] for n in names], {}, force_inline=True)
+    except _IterationDone:
+        out = None
+    if zero:
+        dsl.cover(I, "burnin.none")
+        P.check("burnin.zero-returns-the-tree-untouched", out is start and not [e for e in log.ev if e[0] in ("move", "relabel")], "without burn-in the initial tree is returned as it is", kind="post")
+        return
+    if "cur" not in state:
+        dsl.cover(I, "burnin.after")
+        P.check("burnin.returns-the-current-tree", out is state.get("after"), "the tree current after the loop is returned", kind="post")
+        return
+    dsl.cover(I, "burnin.iteration")
+    cur, final, ev = state["cur"], state["final"], log.ev
+    kinds = [e[0] for e in ev]
+    moves = [e for e in ev if e[0] == "move"]
+    P.check("burnin.caches-cleared-before-moves", "clear-caches" in kinds and kinds.index("clear-caches") < kinds.index("move"), "proposal caches are cleared before the first move of the iteration", kind="post")
+    P.check("burnin.moves", len(moves) == 1 + nd + npr and moves[0][1] == "burnin_sampler" and moves[0][2] is cur and all(moves[k + 1][2] is moves[k][3] for k in range(len(moves) - 1)) and moves[-1][3] is final
+            and [m[1] for m in moves[1:]] == ["dp_sampler"] * nd + ["prg_sampler"] * npr,
+            "one burn-in (unconditional SMC) update, then the data-point and prune-regraft moves, each applied to the previous result; the last result is the current tree", kind="post")
+    P.check("burnin.relabel-after-moves", kinds.count("relabel") == 1 and kinds.index("relabel") > max(k for k, e in enumerate(ev) if e[0] == "move") and ev[kinds.index("relabel")][1] is final,
+            "the final tree of the iteration is relabelled once, after the moves", kind="post")
